@@ -440,7 +440,17 @@ func crashExec(ops []string) (dops []string, res []string) {
 				k := string(unhx(p[0]))
 				keyset[k] = true
 				v := delMark
-				if p[1] != "-" {
+				if p[1] == "PAD256" {
+					// a value sized so that the wal record of this entry is a multiple of 256 bytes long (the low byte of its
+					// little-endian length prefix is zero)
+					ts := db.VerifOracle().NextTs
+					probe := types.Entry{Key: types.KeyWithTs(k, ts), Value: bytes.Repeat([]byte{'p'}, 200), Version: int64(ts)}
+					if enc, err := utils.TMarshal(&probe); err == nil {
+						v = strings.Repeat("p", 200+(256-len(enc)%256)%256)
+					} else {
+						v = strings.Repeat("p", 200)
+					}
+				} else if p[1] != "-" {
 					v = string(unhx(p[1]))
 				}
 				if _, ok := tx.writes[k]; !ok {
@@ -538,13 +548,23 @@ func crashExec(ops []string) (dops []string, res []string) {
 				if sl[1] > sl[0] {
 					all = append(all, cut{f, sl[0]})
 					cuts = append(cuts, []cut{{f, sl[0]}}, []cut{{f, sl[0] + (sl[1]-sl[0])/2}}, []cut{{f, sl[1] - 1}})
+					if strings.HasSuffix(f, ".log") {
+						// a torn length prefix: 1 and 7 of its 8 bytes survive; the whole prefix but nothing of the body; one byte of it
+						for _, d := range []int64{1, 7, 8, 9} {
+							if sl[0]+d < sl[1] {
+								cuts = append(cuts, []cut{{f, sl[0] + d}})
+							}
+						}
+					}
 				}
 			}
 			if len(all) > 1 {
 				cuts = append(cuts, all)
 			}
 			if len(cuts) > lossy {
-				cuts = cuts[:lossy]
+				// a different selection of the possible cuts at every crash point, so that all kinds are tried over a run
+				st := (i * lossy) % len(cuts)
+				cuts = append(append([][]cut{}, cuts[st:]...), cuts[:st]...)[:lossy]
 			}
 			for _, cs := range cuts {
 				os.RemoveAll(work)
@@ -782,6 +802,11 @@ func crashGen(r *rand.Rand, n int, thorough bool) []Case {
 				ops = append(ops, "reopen")
 				tags = append(tags, "reopen")
 			}
+		}
+		if c%3 == 1 {
+			// a transaction whose only wal record has a length that is a multiple of 256 (torn length prefixes then read as 0)
+			ops = append(ops, "txn "+hxs(userKeys[r.Intn(nk)]+"-pad")+"=PAD256")
+			tags = append(tags, "record-length-multiple-of-256")
 		}
 		if c%3 == 0 {
 			// one large transaction at the end (its wal batch is far above 32 KiB): it must still reach the wal by one write
